@@ -313,9 +313,9 @@ Proof.
 Qed.
 
 Lemma steps_length cf ru ts prev run o : steps cf ru ts prev run = Ok o -> length o = length run.
-Proof. intros H. apply steps_forall2 in H. symmetry. eapply Forall2_length; eauto. Qed.
+Proof. intros H. apply steps_forall2 in H. induction H; cbn; congruence. Qed.
 
-Lemma Forall_take_run {A} (P : vrec -> Prop) c l run tl :
+Lemma Forall_take_run (P : vrec -> Prop) c l run tl :
   take_run c l = (run, tl) -> Forall P l -> Forall P run /\ Forall P tl.
 Proof.
   intros H F. apply take_run_app in H. subst l. apply Forall_app in F. exact F.
@@ -340,4 +340,109 @@ Proof.
   apply andb_true_intro. split.
   - apply steps_no_stale; assumption.
   - apply IH; assumption.
+Qed.
+
+(* ------------------------------------------------------------------ PS and HP outputs of the repaired writer *)
+Definition with_tag (cf : cfg) (tg : tagk) : cfg := mkCfg tg (only_snvs cf) (mav cf) (end_decl cf).
+
+Lemma skip_with_tag cf tg ts prev r : skip (with_tag cf tg) ts prev r = skip cf ts prev r.
+Proof. reflexivity. Qed.
+
+Lemma written_t_with_tag cf tg t p : written_t (with_tag cf tg) t p = written_t cf t p.
+Proof. reflexivity. Qed.
+
+Lemma decode_PS_none_k k k' c : decode_PS k c = Ok None -> decode_PS k' c = Ok None.
+Proof.
+  unfold decode_PS. destruct (negb (phased c)); [auto|].
+  destruct (gt c) as [[|a t]|]; try discriminate.
+  destruct (forallb (allele_eqb a) t); [auto|discriminate].
+Qed.
+
+(* the statements of the target calls of one PS-written and one HP-written record *)
+Definition rec_equiv (ts : list target) (oP oH : vrec) : Prop :=
+  forall t cP cH, In t ts ->
+    nth_error (calls oP) (t_sample t) = Some cP -> nth_error (calls oH) (t_sample t) = Some cH ->
+    decode_PS (ps_key oP) cP = decode_HP fix_guard cH /\
+    decode_HP fix_guard cP = Ok None /\ decode_PS (ps_key oH) cH = Ok None.
+
+Lemma steps_equiv cf ts prev run oP oH :
+  mav cf = false -> NoDup (map t_sample ts) ->
+  Forall (fun t => Forall (fun s => length (snd s) = 2%nat) (t_super t)) ts ->
+  Forall (fun r => Forall wf_call (calls r)) run ->
+  steps (with_tag cf TagPS) fix_rules ts prev run = Ok oP ->
+  steps (with_tag cf TagHP) fix_rules ts prev run = Ok oH ->
+  Forall2 (rec_equiv ts) oP oH.
+Proof.
+  intros Hmav ND Hdip. revert prev oP oH. induction run as [|r run IH]; intros prev oP oH Hwf HP HH; cbn [steps] in HP, HH.
+  - inversion HP. inversion HH. constructor.
+  - destruct (record_step (with_tag cf TagPS) fix_rules ts prev r) as [[pP o1]|e] eqn:E1; cbn [bind] in HP; [|discriminate].
+    destruct (record_step (with_tag cf TagHP) fix_rules ts prev r) as [[pH o2]|e] eqn:E2; cbn [bind] in HH; [|discriminate].
+    cbn [fst snd] in HP, HH.
+    destruct (steps (with_tag cf TagPS) fix_rules ts pP run) as [outP|e] eqn:S1; cbn [bind] in HP; [|discriminate].
+    destruct (steps (with_tag cf TagHP) fix_rules ts pH run) as [outH|e] eqn:S2; cbn [bind] in HH; [|discriminate].
+    inversion HP. inversion HH. subst oP oH. clear HP HH. inversion Hwf as [|? ? Hw1 Hw2]. subst.
+    destruct (record_step_spec _ _ _ _ _ _ _ ND E1) as [_ [L1 [_ [Hp1 Hc1]]]].
+    destruct (record_step_spec _ _ _ _ _ _ _ ND E2) as [_ [L2 [_ [Hp2 Hc2]]]].
+    rewrite skip_with_tag in Hp1, Hp2, Hc1, Hc2.
+    constructor.
+    + intros t cP cH Ht HnP HnH.
+      destruct (sync_end_spec (end_decl cf) o1) as [_ [_ [_ [A4 [A5 _]]]]].
+      destruct (sync_end_spec (end_decl cf) o2) as [_ [_ [_ [B4 [B5 _]]]]].
+      cbn [end_decl with_tag] in *.
+      rewrite A4 in HnP. rewrite B4 in HnH. rewrite A5, B5.
+      assert (Hx : exists c, nth_error (calls r) (t_sample t) = Some c).
+      { destruct (nth_error (calls r) (t_sample t)) eqn:E; [eauto|].
+        apply nth_error_None in E. rewrite <- L1 in E. apply nth_error_None in E. congruence. }
+      destruct Hx as [c Hx]. specialize (Hc1 _ _ Hx). specialize (Hc2 _ _ Hx).
+      rewrite (target_of_in _ _ ND Ht) in Hc1, Hc2.
+      assert (Hwc : wf_call c).
+      { rewrite Forall_forall in Hw1. apply Hw1. eapply nth_error_In; eauto. }
+      rewrite Forall_forall in Hdip. specialize (Hdip t Ht).
+      destruct (skip cf ts prev r) as [why|] eqn:Esk.
+      * rewrite Hc1 in HnP. rewrite Hc2 in HnH. inversion HnP. inversion HnH. subst cP cH.
+        cbn [rm_phasing fix_rules tag with_tag].
+        destruct (fix_rm_no_stmt TagPS (ps_key o1) c Hwc) as [P1 P2].
+        destruct (fix_rm_no_stmt TagHP (ps_key o2) c Hwc) as [Q1 Q2].
+        rewrite P1, P2, Q1, Q2. auto.
+      * destruct Hc1 as [c1 [Hu1 Hn1]]. destruct Hc2 as [c2 [Hu2 Hn2]].
+        rewrite Hn1 in HnP. rewrite Hn2 in HnH. inversion HnP. inversion HnH. subst c1 c2.
+        pose proof (fix_call_exact (with_tag cf TagPS) t (pos r) c cP Hmav Hdip (proj1 Hwc) Hu1) as X1.
+        pose proof (fix_call_exact (with_tag cf TagHP) t (pos r) c cH Hmav Hdip (proj1 Hwc) Hu2) as X2.
+        rewrite written_t_with_tag in X1, X2. cbn [tag with_tag stmts_exact] in X1, X2.
+        destruct X1 as [X1a X1b]. destruct X2 as [X2a X2b].
+        assert (Hk : ps_key o1 = true).
+        { unfold record_step in E1. rewrite skip_with_tag, Esk in E1.
+          destruct (update_targets _ _ _ _ _); cbn [bind] in E1; [|discriminate].
+          inversion E1. subst. cbn. destruct ts; [contradiction|reflexivity]. }
+        rewrite Hk, X1a, X2a, X1b. repeat split; auto. eapply decode_PS_none_k; eauto.
+    + rewrite Hp1 in S1. rewrite Hp2 in S2. eapply IH; eauto.
+Qed.
+
+Theorem ps_hp_equivalent_fixed cf plan input outP outH :
+  mav cf = false -> plan_wf plan -> plan_diploid plan -> wf_input input ->
+  map fst plan = runs input ->
+  phase_writer (with_tag cf TagPS) fix_rules plan input = Ok outP ->
+  phase_writer (with_tag cf TagHP) fix_rules plan input = Ok outH ->
+  Forall2 (fun a oo => rec_equiv (snd a) (fst oo) (snd oo)) (annotate plan input) (combine outP outH).
+Proof.
+  intros Hmav W D Wf Hp HP HH. rewrite phase_writer_simple in HP, HH by exact Hp. clear Hp.
+  revert input outP outH Wf HP HH. induction plan as [|[c ts] more IH]; intros l outP outH Wf HP HH.
+  - cbn in *. inversion HP. inversion HH. constructor.
+  - cbn [simple annotate] in *. inversion W as [|? ? W1 W2]. inversion D as [|? ? D1 D2]. subst.
+    destruct (take_run c l) as [run tl] eqn:Et.
+    destruct (steps (with_tag cf TagPS) fix_rules ts None run) as [o1|e] eqn:S1; cbn [bind] in HP; [|discriminate].
+    destruct (steps (with_tag cf TagHP) fix_rules ts None run) as [o2|e] eqn:S2; cbn [bind] in HH; [|discriminate].
+    destruct (simple (with_tag cf TagPS) fix_rules more tl) as [m1|e] eqn:M1; cbn [bind] in HP; [|discriminate].
+    destruct (simple (with_tag cf TagHP) fix_rules more tl) as [m2|e] eqn:M2; cbn [bind] in HH; [|discriminate].
+    inversion HP. inversion HH. subst outP outH. clear HP HH.
+    destruct (Forall_take_run _ _ _ _ _ Et Wf) as [F1 F2].
+    pose proof (steps_equiv _ _ _ _ _ _ Hmav W1 D1 F1 S1 S2) as Q.
+    pose proof (steps_length _ _ _ _ _ _ S1) as L1. pose proof (steps_length _ _ _ _ _ _ S2) as L2.
+    assert (Hcomb : combine (o1 ++ m1) (o2 ++ m2) = combine o1 o2 ++ combine m1 m2).
+    { clear -L1 L2. assert (L : length o1 = length o2) by congruence. clear L1 L2.
+      revert o2 L. induction o1 as [|x o1 IHo]; intros [|y o2] L; cbn in *; try discriminate; [reflexivity|].
+      f_equal. apply IHo. congruence. }
+    rewrite Hcomb. apply Forall2_app; [|apply IH; assumption].
+    clear -Q L1 L2. assert (L : length run = length o1) by congruence. clear L1 L2.
+    revert run L. induction Q; intros [|r run] L; cbn in *; try discriminate; constructor; auto.
 Qed.
